@@ -142,7 +142,10 @@ def get(cfg, custom=None):
                 f.write(str(rc))
             with open(os.path.join(tmp, "wall"), "w") as f:
                 f.write("%.2f" % (time.time() - t0))
-            open(os.path.join(tmp, ".done"), "w").close()
+            if rc == 0:
+                # only successful extractions are cached: a failed build is re-tried by the next check, so that a
+                # transient failure can never turn into a persistent alarm
+                open(os.path.join(tmp, ".done"), "w").close()
             shutil.rmtree(d, ignore_errors=True)
             os.rename(tmp, d)
             _prune(keep=key)
@@ -165,8 +168,9 @@ def _prune(keep):
     root = os.path.join(CACHE, "facts")
     ents = [e for e in os.listdir(root) if not e.startswith(".") and os.path.isdir(os.path.join(root, e))]
     ents.sort(key=lambda e: os.path.getmtime(os.path.join(root, e)), reverse=True)
+    now = time.time()
     for e in ents[30:]:
-        if e != keep:
+        if e != keep and now - os.path.getmtime(os.path.join(root, e)) > 3600:
             shutil.rmtree(os.path.join(root, e), ignore_errors=True)
 
 
